@@ -141,6 +141,49 @@ def run(ctx):
                                f'with the same outline and size; in that mesh the lowest cell meeting the point is {brute[0] if brute else None}',
                                {'dataset': t.spec['label'], 'point': [c.x, c.y], 'twin': which})
                     break
+    # a subset made with select_variables, whose coordinates are then corrected in place on that same object (0..360 to
+    # -180..180, say) before it is first used: lookups answer for the subset as it now is
+    for fam, kw in [('cf1d', dict(ny=3, nx=4)), ('cf2d', dict(ny=3, nx=3, invalid=False, holes='none')), ('ugrid', dict(w=3, h=2, invalid=False))]:
+        dsub = gen.any_dataset(rng, fam, **kw)
+        gen.add_data_vars(rng, dsub.ds, dsub.spec['kinds'], n_extra_max=1)
+        parent = dsub.ds
+        with warnings.catch_warnings():
+            warnings.simplefilter('ignore')
+            p_polys = pm.impl_polygons(parent.ems)
+            parent.ems.strtree
+            keep = [str(v) for v in parent.data_vars if str(v) not in {str(x) for x in parent.ems.get_all_geometry_names()}][:1]
+            r = attempt(lambda: parent.ems.select_variables(keep))
+        if r[0] != 'ok':
+            continue
+        sub = r[1]
+        lon_names = [n for n, v in sub.variables.items() if v.dtype.kind == 'f' and (
+            v.attrs.get('units') == 'degrees_east' or v.attrs.get('standard_name') == 'longitude' or v.attrs.get('axis') == 'X')]
+        lon_names += [sub[n].attrs['bounds'] for n in lon_names if sub[n].attrs.get('bounds') in sub.variables]
+        for nme in lon_names:
+            v = sub[nme]
+            if nme in sub.coords:
+                sub.coords[nme] = (v.dims, v.values + 40.0, v.attrs)
+            else:
+                sub[nme] = (v.dims, v.values + 40.0, v.attrs)
+        case = {'dataset': dsub.spec['label'], 'what': 'select_variables, longitudes shifted by 40 in place on the subset, then lookups'}
+        ctx.count('subset_edited_in_place')
+        for n, p in enumerate(p_polys):
+            if p is None:
+                continue
+            c0 = shapely.Polygon(p).representative_point()
+            c1 = Point(c0.x + 40.0, c0.y)
+            with warnings.catch_warnings():
+                warnings.simplefilter('ignore')
+                r1 = attempt(sub.ems.get_index_for_point, c1)
+                r0 = attempt(sub.ems.get_index_for_point, c0)
+            g1 = None if r1[0] != 'ok' or r1[1] is None else int(r1[1].linear_index)
+            g0 = None if r0[0] != 'ok' or r0[1] is None else int(r0[1].linear_index)
+            brute1 = [k for k, q in enumerate(p_polys) if q is not None and shapely.Polygon([(x + 40.0, y) for x, y in q]).intersects(c1)]
+            ctx.case((dsub.spec['label'], 'subset', n), True)
+            if g1 != (brute1[0] if brute1 else None) or g0 is not None:
+                ctx.report('property', f'after the edit the subset has cell {brute1[0] if brute1 else None} at {(c1.x, c1.y)} and nothing at '
+                           f'{(c0.x, c0.y)}; the lookups returned {g1} and {g0}', case)
+                break
     exprs, plans = [], []
     for d in datasets:
         # a variable holding each cell's own linear index: what select_point returns says which cell was selected
